@@ -9,6 +9,26 @@ E3 = "E3 choice-tape explorer (vmc/engines/choice.py)"
 
 # id: (engine, technique, level text, level note, design ref)
 CHECKS = {
+ "C01": (E1, "bounded-exhaustive explicit-state enumeration of charge patterns and of all arrangements of sparse compositions; invariant checked on every state",
+         "Every charge pattern up to length 10 (quick) / 12 (thorough) and every arrangement of the sparse compositions of total 10..20 is run through the real get_kappa/get_delta/get_deltaMax and judged by the three clauses of the property (-1 iff delta-max 0; clamp(delta/delta-max); range). The range clause genuinely fails today for a listed finite set of patterns (known finding F-KAPPA); any pattern outside that list is a violation.",
+         "delta and delta-max are taken from the same API (their values are C02/C03's job); the list of known kappa>1 orbits is complete only for the explored space.",
+         "DESIGN.md section 4 C01, section 5 F-KAPPA"),
+ "C03": (E1, "bounded-exhaustive enumeration of the composition lattice (n+,n-,n0), several presentations per composition, exact rational reference for the documented search family",
+         "Every composition up to total 24 (quick) / 45 (thorough) - covering all four search regimes, the 17/18-neutral boundary and block-length ties - is presented in up to five arrangements/spellings; delta-max must equal the exact maximum over the independently generated documented family, the returned permutant must be a rearrangement whose real get_delta() equals it, and all arrangements of every composition of total <=7/8 must agree.",
+         "Trusts vmc/refmodel/charge.py:dmax_family as the reading of the documented search; compositions above the bound are not covered.",
+         "DESIGN.md section 4 C03"),
+ "C04": (E1, "exhaustive enumeration of all residue words up to length 3/4 and of two-residue block sequences, exact per-residue reference tables",
+         "All 8 420 words of length <=3 (thorough: all multisets of 4 with all permutations) and 25k block sequences: 18 getters each compared with exact sums over pinned published tables, plus the five identities and permutation invariance. The parameters are per-residue folds, so single residues and pairs already pin every table entry.",
+         "Trusts the pinned tables in vmc/refmodel/tables.py.",
+         "DESIGN.md section 4 C04"),
+ "C07": (E1, "bounded-exhaustive enumeration of charge patterns, independent reference for the double sum",
+         "Every charge pattern to length 10/12, 17 spellings to length 6/8 and all <=3-run patterns to length 20/40 through the real get_SCD(), compared with an independent evaluation of the Sawle-Ghosh sum.",
+         "Reference in vmc/refmodel/charge.py:scd; float tolerance 1e-9 relative.",
+         "DESIGN.md section 4 C07"),
+ "C08": (E1, "exhaustive enumeration of the composition lattice, exact rational threshold cascade",
+         "Every triple (n+,n-,N) with N<=60 (quick) / 150 (thorough), realised as 2-4 actual sequences, through the real get_phasePlotRegion(); any exception or disagreement with the rational cascade is reported. The function factors through the triple, so this is exhaustive for all sequences up to that length.",
+         "Rational cascade in vmc/refmodel/charge.py:region.",
+         "DESIGN.md section 4 C08"),
  "C02": (E1, "bounded-exhaustive explicit-state enumeration of charge patterns, lock-step exact rational reference model",
          "Every charge pattern up to the length bound (quick 10, thorough 13), in spellings that use all 20 residues, plus all <=3-run patterns to length 20/40, is fed to the real get_delta() and compared with exact Fraction evaluation of the Das-Pappu definition. Exhaustive within the bound; the algorithm is a 5/6-residue window fold, so the small scope contains every regime.",
          "Trusts the reference model in vmc/refmodel/charge.py and the pinned charge classes in vmc/refmodel/tables.py; sequences longer than the bounds are not covered.",
